@@ -488,7 +488,14 @@ pub fn op_elg(a: &[&str]) -> String {
             match r1 { Some(x) => format!("some:{}", x), None => "none".into() }
         }
         ["op", ty, op, x, y] => match (*ty, *op) {
-            ("opn", "add") => { let (Some(a), Some(b)) = (opening(x), opening(y)) else { return bad() }; variants!(a, b, +, |o: &PedersenOpening| o.to_bytes().to_vec()) }
+            ("opn", "add") => {
+                let (Some(a), Some(b)) = (opening(x), opening(y)) else { return bad() };
+                // equality of openings and of secret keys is equality of their canonical bytes; as_bytes = to_bytes
+                if (a == b) != (a.to_bytes() == b.to_bytes()) || a.as_bytes() != &a.to_bytes() { return "variant-mismatch:eq".into() }
+                let (sa, sb) = (ElGamalSecretKey::from(*a.get_scalar()), ElGamalSecretKey::from(*b.get_scalar()));
+                if (sa == sb) != (sa.as_bytes() == sb.as_bytes()) || sa != sa.clone() { return "variant-mismatch:eq-secret".into() }
+                variants!(a, b, +, |o: &PedersenOpening| o.to_bytes().to_vec())
+            }
             ("opn", "sub") => { let (Some(a), Some(b)) = (opening(x), opening(y)) else { return bad() }; variants!(a, b, -, |o: &PedersenOpening| o.to_bytes().to_vec()) }
             ("opn", "mul") => {
                 let (Some(a), Some(b)) = (opening(x), scalar(y)) else { return bad() };
